@@ -164,6 +164,32 @@ def same_object_above_several():
     return [sep, e("b", 1), sep, e("a", 2), sep, sep, e("c", 3)]
 
 
+class UserExplicitComment(ExplicitComment):
+    """A user's own comment class (e.g. one that remembers the file it came from)."""
+
+
+class UserImplicitComment(ImplicitComment):
+    pass
+
+
+class UserEntry(Entry):
+    pass
+
+
+def subclass_blocks():
+    e = lambda k, i: Entry("article", k, [], start_line=i, raw=f"@article{{{k}}}#{i}")
+    return [
+        UserExplicitComment("above b", start_line=0, raw="@comment{above b}"),
+        e("b", 1),
+        UserImplicitComment("% above a", start_line=2, raw="% above a"),
+        ExplicitComment("also above a", start_line=3, raw="@comment{also above a}"),
+        e("a", 4),
+        UserEntry("article", "0", [], start_line=5, raw="@article{0}#5"),
+        UserImplicitComment("% above c", start_line=6, raw="% above c"),
+        String("c", "v", start_line=7, raw="@string{c = v}#7"),
+    ]
+
+
 def run_special(acc):
     """(a) libraries holding structurally EQUAL blocks (the same preamble / comment / entry text twice, as when two files
     with the same header are merged): result must be a permutation and sorted; (b) keys outside ASCII: compared as the
@@ -178,6 +204,9 @@ def run_special(acc):
         lambda: [e("f", 0), e("e\u0301", 1), e("\xe9", 2), e("e", 3), e("E", 4), e("\u017f", 5), e("s", 6), e("\xdf", 7), e("ss", 8)],
         lambda: [e("\u0130", 0), e("i", 1), e("I", 2), e("\u0131", 3), e("i\u0307", 4)],
         same_object_above_several,
+        subclass_blocks,
+        lambda: subclass_blocks()[:5],
+        lambda: subclass_blocks()[::-1],
     ]
     for n, mk in enumerate(libs):
         for order in (ORDERS[0], ORDERS[3], ORDERS[30], ORDERS[-1]):
@@ -212,7 +241,7 @@ def run_special(acc):
                                 n_ = 0
                         return out
 
-                    if len({b.raw for b in inp if not is_comment(b)}) == len([b for b in inp if not is_comment(b)]) and runs(inp) != runs(res):
+                    if len({b.raw for b in inp if not is_comment(b)}) == len([b for b in inp if not is_comment(b)]) and any(runs(res).get(r, -1) < k for r, k in runs(inp).items()):  # (a trailing comment-only run may land above any block: more is fine)
                         acc.violation(
                             {"oracle": "comment_run_stays_directly_above_its_block", "comments_on_top": True},
                             {"case": case, "observed": [getattr(b, "key", "%") for b in res], "expected": "each block keeps the comments directly above it"},
